@@ -7,6 +7,7 @@ CONSTANTS
   InitSet = {1, 2, 3, 4}
   InitSigner = 2
   MaxNumber = 1000
+  UpgradeSets = {}
   Depth = 14
 INVARIANTS Emit
 CHECK_DEADLOCK FALSE
